@@ -17,7 +17,8 @@ ASSUMPTIONS = [
     "extraction: ExtrOcamlBasic only; N, positive, nat stay Coq datatypes",
     "1-4 forwarding threads behind the real link-service dispatch; the name hash is abstract in the model (coq/Fw/World.v) and read from the implementation (HashNameToFwThread of every universe name and prefix); go1.26 testing/synctest virtual time",
 ]
-TRUSTED = ["translators/fw/consts.py (regular expressions over the Go sources; a missing pattern fails the run)", "Coq kernel 8.16.1", "Coq extraction + OCaml 4.13.1", "runner/Fw/driver.ml", "harness/fwcore generator and recording faces",
+TRUSTED = ["translators/fw/consts.py (regular expressions over the Go sources; a missing pattern fails the run)",
+           "translators/fw/scope/main.go (go/ast interpretation of the scope-setting statements; anything not understood becomes SOther and fails the classification theorem)", "Coq kernel 8.16.1", "Coq extraction + OCaml 4.13.1", "runner/Fw/driver.ml", "harness/fwcore generator and recording faces",
            "verif hooks fw/fw/zz_verif_fw.go, fw/table/zz_verif_fw.go, fw/face/zz_verif_fw.go, std/utils/priority_queue/zz_verif_fw.go", "go1.26 toolchain (synctest)"]
 
 RULE = ("one evaluation = one generated history (1-4 forwarding threads; setup of 2-6 faces of mixed scope/link type, FIB, strategy choice, CS flags; then 20-45 events: Interests, Data, "
@@ -90,7 +91,12 @@ def run(R, prop, extra_assumptions=()):
                        os.path.join(vlib.COQ, "Fw", "GenConsts.v")], timeout=120)
     if rc != 0:
         R.proof_problems.append("translator translators/fw/consts.py failed on the tree: " + out.strip()[-300:])
-    R.coverage["translated"] = "coq/Fw/GenConsts.v from fw/fw/{bestroute,multicast,thread}.go, fw/table/{pit-cs,pit-cs-tree,dead-nonce-list}.go, fw/core/config.go"
+    # translate: scope-setting statements of the transport constructors and defn.URI.Scope() -> coq/Fw/GenScope.v (go/ast)
+    rc, out = vlib.sh([vlib.GO, "run", os.path.join(vlib.VERIF, "translators", "fw", "scope", "main.go"), vlib.REPO,
+                       os.path.join(vlib.COQ, "Fw", "GenScope.v")], env=vlib.goenv(), timeout=300, cwd=vlib.VERIF)
+    if rc != 0:
+        R.proof_problems.append("translator translators/fw/scope failed on the tree: " + out.strip()[-300:])
+    R.coverage["translated"] = "coq/Fw/GenScope.v from fw/face/*-transport.go and fw/defn/uri.go (go/ast); " + "coq/Fw/GenConsts.v from fw/fw/{bestroute,multicast,thread}.go, fw/table/{pit-cs,pit-cs-tree,dead-nonce-list}.go, fw/core/config.go"
     R.prove("Fw")
     if not R.quick:
         R.coqchk("Fw", ["Fw.Props_" + prop])
@@ -170,10 +176,42 @@ def run(R, prop, extra_assumptions=()):
             ncase = sum(1 for l in lines if l.startswith("case "))
             if ncase != n:
                 R.proof_problems.append("the harness wrote %d of %d generated cases (trace incomplete)" % (ncase, n))
+    if prop == "C09":
+        scope_classification(R, exe, kinds)
     R.coverage["distribution"] = kinds
     R.coverage["rule"] = RULE
     R.add_cases(total, len(distinct), samples)
     return R.finish()
+
+
+def scope_classification(R, exe, kinds):
+    """C09, face-scope classification: the scope the real transport constructors assign vs. the specification and the translated model"""
+    h = os.path.join(R.work, "h.test")
+    tr = os.path.join(R.work, "trace-scope")
+    env = vlib.goenv(); env.update(VERIF_OUT=tr)
+    rc, out = vlib.sh([h, "-test.run", "TestScope", "-test.count=1"], env=env, timeout=300)
+    if rc != 0:
+        R.oracle_failure("harness-crash:scope", "the scope harness aborted", dict(output=out[-2000:]))
+        return
+    lines = open(tr, errors="replace").read().split("\n")
+    rows = [l for l in lines if l.startswith("scope ")]
+    rc, out = runner_on(exe, tr, "C09")
+    for l in out.split("\n"):
+        if l.startswith("ORACLE C09 scope"):
+            p = l.split(" ", 5)
+            R.oracle_failure(p[4], p[5].lstrip("| ") if len(p) > 5 else "", dict(trace="scope", rows=[r for r in rows if r.split(" ")[4] == p[4].split(":")[1]][:12],
+                             replay_hint="go1.26 test -tags verif -run TestScope ./harness/fwcore  (calls the real fw/face constructors)"))
+        elif l.startswith("DIVERGE scope"):
+            R.divergence("face-scope classification: translated model and constructor disagree: " + l[:300], dict(trace="scope", line=l[:600]))
+    if len([r for r in rows if r.startswith("scope 0 ")]) < 6:
+        R.proof_problems.append("the scope harness produced too few rows for MakeUnicastTCPTransport")
+    kinds["scope-rows"] = len(rows)
+    for c in sorted(set(r.split(" ")[4] for r in rows)):
+        kinds["scope:" + c] = len([r for r in rows if r.split(" ")[4] == c])
+    R.coverage["scope_rule"] = ("face-scope classification: every exported transport constructor of fw/face is called for real (outgoing TCP without dialing, accepted TCP / "
+                                "WebSocket / Unix over in-process connections on loopback and on this host's own non-loopback addresses, UDP by connecting a datagram socket) "
+                                "and the assigned scope compared with Scope.spec_local and with the model translated from the source (GenScope.v)")
+    R.add_cases(len(rows), len(set(rows)), rows[:2])
 
 
 def replay(R, path):
